@@ -29,7 +29,7 @@ def cases(draw):
     allow = gen.FULL_EXACT - {"quadcmp"}
     m, info = draw(gen.models(max_vars=3, allow=allow, max_cons=2, max_lcons=2, with_obj=False, depth=2, budget=12))
     pick = draw(st.integers(0, 10**6))
-    damage = draw(st.sampled_from(["none", "none", "bound", "integer", "aux", "tiny-bound", "tiny-aux", "none", "subtol-aux", "subtol-aux"]))
+    damage = draw(st.sampled_from(["none", "none", "bound", "integer", "aux", "tiny-bound", "tiny-aux", "none", "subtol-aux", "subtol-aux", "subtol-int", "subtol-int"]))
     which = draw(st.integers(0, 10**6))
     fail = draw(st.booleans())
     mode = draw(st.sampled_from([None, None, 3, 1 + 2 + 4 + 8, 1023]))
@@ -130,6 +130,27 @@ def judge(n, info, pick, damage, which, fail, mode, res, known=()):
             x[j] = x[j] + F(1, 4) if x[j] < fm.ub[j] else x[j] - F(1, 4)
             expect = True
             applied = damage
+    elif damage == "subtol-int":
+        # what MIP solvers routinely return: an integer (original or auxiliary, e.g. the binary of an indicator or of a reified
+        # comparison) that is off by 2^-24, far inside sol:chk:inttol = 1e-5 and feastol = 1e-6 (coefficients are <= 10): the verdict
+        # must be the one of the exact point. Not judged under the idealistic bits, which recompute expressions without tolerances.
+        ints = [j for j in range(fm.nvars) if fm.type[j] == 1 and fm.lb[j] < fm.ub[j]]
+        if ints and not (mode is not None and mode & (32 | 64 | 128 | 256)):
+            j = ints[which % len(ints)]
+            # three times out of four the binary of a delivered indicator constraint, when there is one: its value decides whether
+            # the implied constraint is judged at all
+            indb = sorted({c.d["bin_var"] for c in fm.cons if c.kind == "indicator" and c.d["bin_var"] in ints})
+            if indb and (which // 5) % 4 != 0:
+                j = indb[(which // 20) % len(indb)]
+            down = (which // 11) % 3 != 0            # mostly downwards: truncation instead of rounding is the classical slip
+            if x[j] <= fm.lb[j]:
+                down = False                          # stay inside the bounds
+            elif x[j] >= fm.ub[j]:
+                down = True
+            x[j] = x[j] - F(1, 2 ** 24) if down else x[j] + F(1, 2 ** 24)
+            applied = damage
+            if j in indb:
+                res.label("subtol-int on an indicator binary")
     elif damage in ("aux", "tiny-aux", "subtol-aux"):
         # subtol-aux: the user raises the absolute tolerance to 1e-2 (relative 1e-6); an expression that is off by 2^-9 is then
         # within tolerance whatever its value is - in particular when the value is 0, where the relative test does not apply
